@@ -15,21 +15,21 @@ Proof.
   rewrite H1, <- app_assoc. auto.
 Qed.
 
-Theorem shape_gen ip6 handler mw up ip fp evs :
-  Spec.C01.clause_shape (run ip6 handler mw up ip fp init evs) = true.
+Theorem shape_gen ip6 handler mw up ucf ip fp evs :
+  Spec.C01.clause_shape (run ip6 handler mw up ucf ip fp init evs) = true.
 Proof.
   unfold Spec.C01.clause_shape.
-  destruct (wire_run ip6 handler mw up ip fp evs) as [->|[r [_ ->]]]; [reflexivity|].
+  destruct (wire_run ip6 handler mw up ucf ip fp evs) as [->|[r [_ ->]]]; [reflexivity|].
   destruct (serialize_wire r) as [h [E [E1 [H2 [H3 H4]]]]]. rewrite E.
   rewrite response_shape_ok by assumption. destruct (h ++ crlf ++ snd (serialize r)); reflexivity.
 Qed.
 
 Theorem faithful_gen ip6 c evs :
   Spec.C01.clause_faithful c evs
-    (run ip6 (fun _ => c_hres c) (c_mw c) (c_upload c) (c_ip c) (c_fp c) init evs) = true.
+    (run ip6 (fun _ => c_hres c) (c_mw c) (c_upload c) (c_upfail c) (c_ip c) (c_fp c) init evs) = true.
 Proof.
   unfold Spec.C01.clause_faithful.
-  destruct (wire_run ip6 (fun _ => c_hres c) (c_mw c) (c_upload c) (c_ip c) (c_fp c) evs)
+  destruct (wire_run ip6 (fun _ => c_hres c) (c_mw c) (c_upload c) (c_upfail c) (c_ip c) (c_fp c) evs)
     as [->|[r [S ->]]]; [reflexivity|].
   destruct (serialize_wire r) as [h [E [E1 [H2 [H3 H4]]]]]. rewrite E.
   rewrite break_crlf_app by assumption.
